@@ -459,13 +459,13 @@ def gen_inputs(tier, rng):
     quick = tier == "quick"
     descs = []
     for scn in scenarios():
-        descs.append({"scn": dict(scn, threads=True), "budget": 90 if quick else 4000, "seed": rng.randrange(10 ** 6),
+        descs.append({"scn": dict(scn, threads=True), "budget": 250 if quick else 10000, "seed": rng.randrange(10 ** 6),
                       "order": "random" if quick else "dfs"})
     for scn in scenarios3():
-        descs.append({"scn": dict(scn, threads=True), "budget": 40 if quick else 1500, "seed": rng.randrange(10 ** 6),
+        descs.append({"scn": dict(scn, threads=True), "budget": 100 if quick else 2500, "seed": rng.randrange(10 ** 6),
                       "order": "random"})
     for name in ("init-same-empty", "init-same-populated"):
         scn = [s for s in scenarios() if s["name"] == name][0]
-        descs.append({"scn": dict(scn, threads=False, name=name + "-direct"), "budget": 40 if quick else 600,
+        descs.append({"scn": dict(scn, threads=False, name=name + "-direct"), "budget": 100 if quick else 3000,
                       "seed": rng.randrange(10 ** 6), "order": "random"})
     return descs
